@@ -76,6 +76,8 @@ theorem applyRes_inProg (cfg : Cfg) (pol : Policy) (step : Nat) (tickEv : Ev) (d
     simp only [applyRes]
     split
     · simp
+    split
+    · simp
     all_goals
       split
       · split <;> simp
